@@ -223,7 +223,7 @@ var ops = []opGen{
 	}},
 	{"update-ref", func(g *G) bool { return len(g.E.H.Order) > 0 }, func(g *G) Step {
 		b := g.Pick(g.E.Cur.BranchNames(), "branch")
-		return goit("update-ref", "refs/heads/"+b, g.Pick(g.E.H.Order, "commit"))
+		return goit("update-ref", "refs/heads/"+b, fmt.Sprintf("@commit#%d", g.Int(0, len(g.E.H.Order)-1, "commitIdx")))
 	}},
 	{"status", always, func(g *G) Step { return goit("status") }},
 	{"tz", always, func(g *G) Step {
